@@ -486,17 +486,18 @@ theorem cmpV_inertZ (hsm : SmallOk zd p) (op : Cmp) {a b : Val} (ha : BoolV a) (
 
 /-! ## selection, unary operators, constructors: no zero test -/
 
-theorem zipWithM'_inertZ {f : Val → Val → M Val}
-    (hf : ∀ t g, BoolV t → BoolV g → Inert zd p res BoolV (f t g)) :
-    ∀ (ts gs : List Val), (∀ v ∈ ts, BoolV v) → (∀ v ∈ gs, BoolV v) →
+theorem zipWithM'_inertZ {f : Val → Val → M Val} {P : Val → Val → Bool}
+    (hf : ∀ t g, BoolV t → BoolV g → P t g = true → Inert zd p res BoolV (f t g)) :
+    ∀ (ts gs : List Val), (∀ v ∈ ts, BoolV v) → (∀ v ∈ gs, BoolV v) → zipAllB P ts gs = true →
       Inert zd p res (fun rs => ∀ r ∈ rs, BoolV r) (zipWithM' f ts gs)
-  | [], _, _, _ => by simp only [zipWithM']; exact Inert.pure (by simp)
-  | _ :: _, [], _, _ => by simp only [zipWithM']; exact Inert.pure (by simp)
-  | t :: ts, g :: gs, ht, hg => by
+  | [], _, _, _, _ => by simp only [zipWithM']; exact Inert.pure (by simp)
+  | _ :: _, [], _, _, _ => by simp only [zipWithM']; exact Inert.pure (by simp)
+  | t :: ts, g :: gs, ht, hg, hP => by
+    simp only [zipAllB, Bool.and_eq_true] at hP
     simp only [zipWithM']
-    refine Inert.bind (hf t g (ht t (List.mem_cons_self ..)) (hg g (List.mem_cons_self ..))) (fun r hr => ?_)
+    refine Inert.bind (hf t g (ht t (List.mem_cons_self ..)) (hg g (List.mem_cons_self ..)) hP.1) (fun r hr => ?_)
     refine Inert.bind (zipWithM'_inertZ hf ts gs (fun v hv => ht v (List.mem_cons_of_mem _ hv))
-      (fun v hv => hg v (List.mem_cons_of_mem _ hv))) (fun rs hrs => ?_)
+      (fun v hv => hg v (List.mem_cons_of_mem _ hv)) hP.2) (fun rs hrs => ?_)
     refine Inert.pure ?_
     intro v hv
     rcases List.mem_cons.mp hv with rfl | hv
@@ -504,12 +505,12 @@ theorem zipWithM'_inertZ {f : Val → Val → M Val}
     · exact hrs v hv
 
 theorem iteAux_inertZ {cond : LinComb} (hc : cond.value = 0 ∨ cond.value = 1) : ∀ (fuel : Nat) (t f : Val), BoolV t → BoolV f →
-    Inert zd p res BoolV (iteAux cond fuel t f) := by
+    zipOk fuel t f = true → Inert zd p res BoolV (iteAux cond fuel t f) := by
   intro fuel
   induction fuel with
-  | zero => intro t f _ _; simp only [iteAux]; exact Inert.raise rfl
+  | zero => intro t f _ _ _; simp only [iteAux]; exact Inert.raise rfl
   | succ n ih =>
-    intro t f ht hf
+    intro t f ht hf hzk
     by_cases hbb : bothLcb t f = true
     · cases t <;> cases f <;> simp only [bothLcb, reduceCtorEq] at hbb
       rw [iteAux_bb]
@@ -533,12 +534,16 @@ theorem iteAux_inertZ {cond : LinComb} (hc : cond.value = 0 ∨ cond.value = 1) 
       case list ts =>
         cases f
         case list fs =>
+          obtain ⟨hl, hz'⟩ := zipOk_list hzk
           dsimp only
-          refine Inert.bind (zipWithM'_inertZ (fun a b ha hb => ih a b ha hb) ts fs (BoolV_list.mp ht) (BoolV_list.mp hf))
+          rw [if_pos hl]
+          refine Inert.bind (zipWithM'_inertZ (fun a b ha hb hab => ih a b ha hb hab) ts fs (BoolV_list.mp ht) (BoolV_list.mp hf) hz')
             (fun rs hrs => Inert.pure (BoolV_list.mpr hrs))
         case tuple fs =>
+          obtain ⟨hl, hz'⟩ := zipOk_tuple hzk
           dsimp only
-          refine Inert.bind (zipWithM'_inertZ (fun a b ha hb => ih a b ha hb) ts fs (BoolV_list.mp ht) (BoolV_tuple.mp hf))
+          rw [if_pos hl]
+          refine Inert.bind (zipWithM'_inertZ (fun a b ha hb hab => ih a b ha hb hab) ts fs (BoolV_list.mp ht) (BoolV_tuple.mp hf) hz')
             (fun rs hrs => Inert.pure (BoolV_list.mpr hrs))
         all_goals exact Inert.tyErr
       case fxp x =>
@@ -551,8 +556,8 @@ theorem iteAux_inertZ {cond : LinComb} (hc : cond.value = 0 ∨ cond.value = 1) 
 
 /-- the condition operand of `if_then_else`: a public `int` must be 0/1 (Python-level `ValueError`
 on a public operand) -/
-theorem ifThenElse_inertZ {cond : Val} (same : Bool) {t f : Val} (hc : iteOk cond = true) (hcb : BoolV cond) (ht : BoolV t) (hf : BoolV f) :
-    Inert zd p res BoolV (ifThenElse cond same t f) := by
+theorem ifThenElse_inertZ {cond : Val} (same : Bool) {t f : Val} (hc : iteOk cond = true) (hcb : BoolV cond) (ht : BoolV t) (hf : BoolV f)
+    (hsel : selOk t f = true) : Inert zd p res BoolV (ifThenElse cond same t f) := by
   unfold ifThenElse
   split
   · exact Inert.pure ht
@@ -564,7 +569,7 @@ theorem ifThenElse_inertZ {cond : Val} (same : Bool) {t f : Val} (hc : iteOk con
       simp only [this, Bool.false_eq_true, if_false]
       refine Inert.pure ?_
       split <;> assumption
-    case lcb c => exact iteAux_inertZ (BoolV_lcb.mp hcb) _ t f ht hf
+    case lcb c => exact iteAux_inertZ (BoolV_lcb.mp hcb) _ t f ht hf hsel
     all_goals exact Inert.raise rfl
 
 theorem unV_inertZ (op : Un) {a : Val} (ha : BoolV a) : Inert zd p res BoolV (unV op a) := by
@@ -774,7 +779,7 @@ theorem arrayGet_inertZ {arr : List Val} (harr : ∀ v ∈ arr, BoolV v) (item :
   all_goals exact Inert.tyErr
 
 theorem arraySet_inertZ {arr : List Val} (harr : ∀ v ∈ arr, BoolV v) (item : Val) {v : Val} (hv : BoolV v)
-    (hz : zd = false → agetOkZ p (.list arr) item = true) :
+    (hz : zd = false → agetOkZ p (.list arr) item = true) (hok : asetOk arr item v = true) :
     Inert zd p res (fun rs => ∀ r ∈ rs, BoolV r) (arraySet arr item v) := by
   unfold arraySet
   cases item
@@ -791,11 +796,12 @@ theorem arraySet_inertZ {arr : List Val} (harr : ∀ v ∈ arr, BoolV v) (item :
   case lc it =>
     dsimp only
     refine Inert.bind (arrayIxs_inertZ it _ hz) (fun ixs hixs => ?_)
-    refine mapM'_inert (A := fun (cv : LinComb × Val) => (cv.1.value = 0 ∨ cv.1.value = 1) ∧ BoolV cv.2) (B := BoolV)
-      (fun cv hcv => ifThenElse_inertZ false rfl (BoolV_lcb.mpr hcv.1) hv hcv.2) _ ?_
+    simp only [asetOk, List.all_eq_true] at hok
+    refine mapM'_inert (A := fun (cv : LinComb × Val) => (cv.1.value = 0 ∨ cv.1.value = 1) ∧ BoolV cv.2 ∧ selOk v cv.2 = true) (B := BoolV)
+      (fun cv hcv => ifThenElse_inertZ false rfl (BoolV_lcb.mpr hcv.1) hv hcv.2.1 hcv.2.2) _ ?_
     intro cv hcv
     obtain ⟨h1, h2⟩ := List.of_mem_zip hcv
-    exact ⟨hixs _ h1, harr _ h2⟩
+    exact ⟨hixs _ h1, harr _ h2, hok _ h2⟩
   all_goals exact Inert.tyErr
 
 /-! ## instructions -/
@@ -955,8 +961,8 @@ theorem step_inert_plainZ (hsm : SmallOk zd p) {regs : List Val} {frames : List 
     refine Inert.bind (getReg_inert regs c) (fun cv hc => ?_)
     refine Inert.bind (getReg_inert regs t) (fun tv ht => ?_)
     refine Inert.bind (getReg_inert regs f) (fun fv hf => ?_)
-    simp only [stepOk, hc.2] at hok
-    exact Inert.bind (ifThenElse_inertZ _ hok (hregs cv hc.1) (hregs tv ht.1) (hregs fv hf.1)) (fun r hr => Inert.pure ⟨hr, hregs, rfl⟩)
+    simp only [stepOk, hc.2, ht.2, hf.2, Bool.and_eq_true] at hok
+    exact Inert.bind (ifThenElse_inertZ _ hok.1 (hregs cv hc.1) (hregs tv ht.1) (hregs fv hf.1) hok.2) (fun r hr => Inert.pure ⟨hr, hregs, rfl⟩)
   case list xs =>
     simp only [step]
     refine Inert.bind (getRegs_inert regs xs) (fun vs hvs => ?_)
@@ -1001,9 +1007,10 @@ theorem step_inert_plainZ (hsm : SmallOk zd p) {regs : List Val} {frames : List 
     refine Inert.bind (getReg_inert regs k) (fun iv hi => ?_)
     refine Inert.bind (getReg_inert regs w) (fun vv hv => ?_)
     simp only [stepOkZ, ha.2, hi.2] at hz
+    simp only [stepOk, ha.2, hi.2, hv.2] at hok
     cases av
     case list xs =>
-      refine Inert.bind (arraySet_inertZ (BoolV_list.mp (hregs _ ha.1)) iv (hregs _ hv.1) hz) (fun xs' hxs' => ?_)
+      refine Inert.bind (arraySet_inertZ (BoolV_list.mp (hregs _ ha.1)) iv (hregs _ hv.1) hz hok) (fun xs' hxs' => ?_)
       refine Inert.pure ⟨BoolV_none, ?_, rfl⟩
       intro z hz
       rcases List.mem_or_eq_of_mem_set hz with hz | rfl
